@@ -106,7 +106,8 @@ Proof.
   - apply IH; [exact Hn' | intros H; apply Hx; right; exact H].
 Qed.
 
-Definition active (p : tphase) : bool := match p with PRun | PDisposing _ => true | _ => false end.
+(* the phases in which the task (or the wrapper around it) still answers for the message: it is marked in flight *)
+Definition active (p : tphase) : bool := match p with PRun | PDisposing _ | PCancelled => true | PDisposed => false end.
 
 (* ---- the invariant ---- *)
 Record SInv (msgs : list Z) (s : sstate) : Prop := {
@@ -260,10 +261,9 @@ Proof.
   - (* wrapper cancels the processing task *)
     destruct (negb (cancelf s)); [discriminate|]. destruct (get_task m (tasks s)) as [p0|] eqn:G; [|discriminate].
     assert (Gn : get_task m (tasks s) <> None) by congruence.
-    assert (Hs' : s' = mkSS (waiting s) (held s) (acked s) (deadl s) (requeued s) (inloop s) (set_task m PCancelled (tasks s)) (cancelf s) (finished s))
-      by (destruct p0; try discriminate; inversion H; reflexivity).
-    subst s'. clear H. constructor; sfields; try assumption.
-    + intros x p Gx A. destruct (Z.eq_dec x m) as [->|Hne]; [rewrite get_set_same in Gx by exact Gn; inversion Gx; subst; discriminate|].
+    destruct p0; try discriminate. inversion H; subst; clear H.
+    constructor; sfields; try assumption.
+    + intros x p Gx A. destruct (Z.eq_dec x m) as [->|Hne]; [apply (Ht m PRun G eq_refl)|].
       rewrite get_set_other in Gx by exact Hne. eapply Ht; eauto.
     + intros x Gx. destruct (Z.eq_dec x m) as [->|Hne]; [apply Hw; exact Gn|]. rewrite get_set_other in Gx by exact Hne. apply Hw. exact Gx.
     + intros x Hx. destruct (Z.eq_dec x m) as [->|Hne]; [rewrite (Hlt m Hx) in G; discriminate|]. rewrite get_set_other by exact Hne. apply Hlt. exact Hx.
@@ -287,13 +287,13 @@ Proof.
       - apply NoDup_del. exact Htn.
       - exact Hln.
       - intros Hfin. destruct (Hf Hfin) as [_ [H2 _]]. rewrite H2 in G. discriminate. }
-    unfold give_back. destruct (rem1 m (held s)) as [h'|] eqn:Hh; apply Tail.
+    unfold give_back. destruct (rem1 m (held s)) as [h'|] eqn:Hh.
+    2: { (* the wrapper rejects only what is still held: the task was cancelled before its report had started *)
+         exfalso. destruct (rem1_In m (held s) (Ht m PCancelled G eq_refl)) as [h' Hh']. congruence. }
+    apply Tail.
     + intros x. specialize (Hc x). unfold copies in Hc. rewrite cntz_app, cntz_one. rewrite (rem1_cnt _ _ _ x Hh) in Hc. lia.
     + intros x Hne Hx. apply (rem1_In_other _ _ _ x Hh); assumption.
     + intros x Hne. rewrite cntz_app, cntz_one. unfold ind. destruct (x =? m) eqn:E; [apply Z.eqb_eq in E; congruence | lia].
-    + intros x. apply Hc.
-    + intros x _ Hx. exact Hx.
-    + intros x _. reflexivity.
   - (* consumer.finish() *)
     destruct (negb (cancelf s) || finished s); [discriminate|]. destruct (inloop s) eqn:Eil; cbn [negb] in H; [|discriminate].
     destruct (tasks s) eqn:Ets; cbn [andb negb] in H; [|discriminate]. inversion H; subst; clear H.
@@ -354,3 +354,26 @@ Example shutdown_example :
                             SCancel; STaskCancel 2; STaskEnd 1; SRejectEffect 2; SFinish])
   = [1; 2; 2; 3; 0; 1; 1; 0; 0; 0; 0].
 Proof. vm_compute. reflexivity. Qed.
+
+(* the worker never rejects a message that is not marked in flight: under the Redis client's unconditional reject that would
+   put an acknowledged, dead-lettered or requeued message back into its queue *)
+Theorem reject_only_when_held msgs es s m s' : NoDup msgs -> srun true (sinit msgs) es = Some s ->
+  (sstep true s (SRejectEffect m) = Some s' \/ sstep true s (SLoopGiveBack m) = Some s') -> In m (held s).
+Proof.
+  intros Hn Hr Hs. pose proof (SInv_run msgs es Hn _ _ (SInv_init msgs) Hr) as Hi.
+  destruct Hs as [Hs|Hs]; cbn in Hs.
+  - destruct (get_task m (tasks s)) as [[]|] eqn:G; try discriminate.
+    apply (s_task_held _ _ Hi m PCancelled G eq_refl).
+  - destruct (rem1 m (inloop s)) as [il|] eqn:Er; [|discriminate].
+    apply (s_loop_held _ _ Hi). apply cntz_pos_In. rewrite (rem1_cnt _ _ _ m Er). unfold ind. rewrite Z.eqb_refl.
+    pose proof (cntz_nonneg m il). lia.
+Qed.
+
+(* the runner before c813f53 cancelled-and-rejected a task whatever it was doing: with a reject that does not look whether
+   the message is held (Redis) an acknowledged message is back in its queue - seven steps *)
+Theorem reject_after_ack_before_fix_refuted :
+  exists es s, srun false (sinit [1]) es = Some s /\ cntz 1 (acked s) = 1 /\ cntz 1 (waiting s) = 1 /\ copies 1 s = 2.
+Proof.
+  exists [SDeliver 1; SSpawn 1; SActorEnd 1 1; SEffect 1; SCancel; STaskCancel 1; SRejectEffect 1]. eexists.
+  split; [vm_compute; reflexivity|]. vm_compute. repeat split.
+Qed.
